@@ -1379,6 +1379,13 @@ func main() {
 	writeIfChanged(filepath.Join(*out, "GenFrameUse.v"), w.Bytes())
 	fmt.Printf("go2v: GenFrameUse.v %d frame-use rows, %d hand-over sites\n", nfu, nfx)
 
+	// GenReqStatePool.v (C17): life cycle of the pooled RequestState: pool sites, uses of the holding variables, reset per field (rspool.go)
+	w.Reset()
+	fmt.Fprintf(&w, header, *repo)
+	nrp, nru, nrf := root.reqStatePoolSafe(&w, *repo)
+	writeIfChanged(filepath.Join(*out, "GenReqStatePool.v"), w.Bytes())
+	fmt.Printf("go2v: GenReqStatePool.v %d pool sites, %d uses of a pooled RequestState, %d fields\n", nrp, nru, nrf)
+
 	// GenTypedBuf.v, GenMessages.v ...: byte-buffer methods and message codecs (methods.go)
 	emitMethodFiles(all, *repo, *out)
 }
